@@ -38,6 +38,10 @@ class Plan:
         self.events: list[tuple[int, str]] = []
         self.crashed: int | None = None
         self.crash_event: str | None = None
+        # a LIVE but slow thread: (thread, its k-th system call, virtual seconds) - it is suspended before that call
+        # for that long (a stopped process, an NFS hiccup), e.g. longer than the lock's grace period
+        self.stall: tuple[int, int, float] | None = None
+        self.stalled_at: str | None = None
 
 
 class Sys:
@@ -61,6 +65,9 @@ class Sys:
         n = self.plan.counts.get(t, 0)
         self.plan.counts[t] = n + 1
         self.plan.events.append((t, name))
+        if self.plan.stall is not None and self.plan.stall[0] == t and self.plan.stall[1] == n:
+            self.plan.stalled_at = name
+            self.time.stall(t, self.plan.stall[2])
         hit = self.plan.thread == t and self.plan.at == n
         if hit and self.plan.when == "before":
             self.die(name + " (before)")
@@ -84,6 +91,21 @@ class VTime:
         # holder); "handover": time passes only when a holder releases the lock (each holder keeps it < grace,
         # a waiter may wait much longer in total)
         self.mode = "sleepers"
+
+    def stall(self, t: int, secs: float) -> None:
+        """The calling thread makes no progress for `secs` virtual seconds; the others run meanwhile (their polling
+        sleeps move the clock, since this thread counts as asleep)."""
+        until = self.now + secs
+        self.sleeping.add(t)
+        try:
+            for _ in range(100000):
+                if self.now >= until:
+                    break
+                if self.s.alive <= self.sleeping:
+                    self.now += 0.5
+                self.s.yield_(t, blocked=True)
+        finally:
+            self.sleeping.discard(t)
 
     def sleep(self, secs: float) -> None:
         t = getattr(self.s.tl, "i", None)
